@@ -38,7 +38,7 @@ def build_cases(env, sessions_per_cell, maxmsgs, big_share):
                     m = sealed[opened]
                     api = env.rnd.choice(APIS)
                     if api == "alloc":
-                        s.call("open", ctx="R", api="alloc", ct="$%s.full" % m, aad="$%s.aad" % m if False else s.meta[m], of=m)
+                        s.call("open", ctx="R", api="alloc", ct="$%s.full" % m, aad=s.meta[m], of=m)
                     else:
                         s.call("open", ctx="R", api="inplace", ct="$%s.ct" % m, tag="$%s.tag" % m, aad=s.meta[m], of=m)
                     opened += 1
